@@ -37,14 +37,14 @@ Stencils == { <<<<1,1,1>>, W3>>, <<<<0,1,1>>, W2D>>, <<<<2,2,2>>, W5>>, <<<<1,0,
 
 KappaOf(d, kk) == IF kk = 0 THEN <<>> ELSE [i \in Vox(d) |-> 1 + ((i * kk) % 3)]
 MkP(d, sw, kk, beta, gamma, eps) ==
-  [dims |-> d, wr |-> sw[1], w |-> sw[2], st |-> Stencil(sw[1], sw[2]), kappa |-> KappaOf(d, kk), beta |-> beta, gamma |-> gamma, eps |-> eps]
+  [dims |-> d, wr |-> sw[1], w |-> sw[2], st |-> Stencil(sw[1], sw[2]), nb |-> NbTable(d, Stencil(sw[1], sw[2])), kappa |-> KappaOf(d, kk), beta |-> beta, gamma |-> gamma, eps |-> eps]
 
 \* --- image families
 AllImages(d) == [Vox(d) -> 0..MaxVal]
 \* larger grids: a constant image with up to two bumps (first bump at the first, middle or last voxel)
 Anchors(d) == { 1, (NVox(d) + 1) \div 2, NVox(d) }
 SparseImages(d) == { [i \in Vox(d) |-> cst + (IF i = q[1] THEN q[2] ELSE 0) + (IF i = q[3] THEN 1 ELSE 0)] :
-                       cst \in 0..1, q \in Anchors(d) \X (IF Thorough THEN 1..2 ELSE {2}) \X (IF Thorough THEN Vox(d) ELSE { i \in Vox(d) : i % 3 = 2 }) }
+                       cst \in (IF Thorough THEN 0..1 ELSE {1}), q \in Anchors(d) \X (IF Thorough THEN 1..2 ELSE {2}) \X (IF Thorough THEN Vox(d) ELSE { i \in Vox(d) : i % 3 = 2 }) }
 Images(d) == IF NVox(d) <= FullLimit THEN AllImages(d) ELSE SparseImages(d)
 
 AB == IF Thorough THEN 8 ELSE 6
@@ -78,7 +78,7 @@ InvQ8 == QP(3) => \A cst \in 0..MaxVal : QUniformZero(s.p, cst)
 \* with asymmetric weights the documented gradient is NOT the derivative of the documented value and the
 \* Hessian is not symmetric unless the image is such that the difference vanishes: the clauses need SymmetricW
 InvA1 == (s.kind = "asym" /\ k = 1) => /\ ~SymmetricW(s.p.wr, s.p.w) /\ ~QSymmetric(s.p)
-                                       /\ (QGradIsDerivative(s.p, s.x) <=> \A i \in Vox(s.p.dims) : QGrad(s.p, s.x, i) = QGrad([s.p EXCEPT !.st = Stencil(<<0,0,1>>, WSeq(<<0,0,1>>, LAMBDA o : IF o[3] # 0 THEN 2 ELSE 0))], s.x, i))
+                                       /\ (QGradIsDerivative(s.p, s.x) <=> \A i \in Vox(s.p.dims) : QGrad(s.p, s.x, i) = QGrad([s.p EXCEPT !.nb = NbTable(s.p.dims, Stencil(<<0,0,1>>, WSeq(<<0,0,1>>, LAMBDA o : IF o[3] # 0 THEN 2 ELSE 0)))], s.x, i))
 
 P(n) == s.kind = "pot" /\ k = n
 InvP1 == P(1) => RPsi1Bracket(s.p, s.a, s.b)
